@@ -37,6 +37,9 @@ CHECKS = {
  'C02': dict(tech='TLA+ ideal-crypto decision model (PlonkProtocol.tla) checked by TLC; every behaviour replayed on real Setup/Prove/Verify of 7 curves',
              text='As C01 for PLONK: TLC enumerates shape x edit sequences over every proof component, claimed value, option and public input; each behaviour is replayed on the real PLONK code of every curve.',
              note='Fiat-Shamir/KZG binding are ideal rules; soundness outside the edit alphabet is a cryptographic assumption.', ref='6 C02'),
+ 'C13': dict(tech='TLA+ transcription of the range checker (RangeCheck.tla: optimalWidth, limb decomposition, accept predicate) checked exhaustively over a toy field by TLC; adversarial hint classes replayed on the real gadget through the real provers',
+             text='TLC checks over F_47 (recomposition wraps) that the decomposition constraints accept v iff v < 2^bits for all widths/bases/values and emits width mixes x hint classes (out-of-range value, overflowing limb, shifted limbs, wrong multiplicity); each is run through the real Groth16/PLONK provers with the DecomposeHint and the multiplicity hint substituted and must fail (honest in-range must pass); the limb width and count used by the real gadget must equal the transcription; lookup tables are queried at every index, repeatedly, out of range and against wrong entries.',
+             note='Schwartz-Zippel soundness of the log-derivative identity is an ideal rule; lookup results cannot be substituted (they come from a blueprint, not a hint), so wrong-entry cases assert a wrong expected value instead.', ref='6 C13'),
  'C14': dict(tech='TLA+ gadget relations (ApiSemantics.tla) + generator (ProgGen.tla) + exhaustive constraint solving (ConstraintSat.tla) on rows exported from the real gadgets over F_47',
              text='Every call of cmp.IsLess/IsLessOrEqual, selector.Mux (2-5 inputs), Map, Decoder and bitslice.Partition with every operand-kind pattern is compiled by both builders over F_47; the honest solve must give the exact result inside the domain and fail outside it for every assignment, and every satisfying assignment of every wire (all hinted indicators / bits) must obey the documented relation; TLC enumerates a seeded subset itself with matching state counts.',
              note='The bounded comparator and the 8/32/64-bit word gadgets (wider than the toy field, built on the log-derivative argument) are not covered by this generator.', ref='6 C14'),
